@@ -912,7 +912,7 @@ Proof.
   unfold write_history. fold h.
   replace (fr_head (w_fr w) + 1 =? d_id d) with true by (symmetry; apply N.eqb_eq; lia).
   cbn [negb]. fold w1.
-  assert (FR : forall fl, exists evs w1' fl',
+  assert (FR : forall fl : bool, exists evs w1' fl',
              ([(EV_APPEND, w1)], Done w1, fl) = (evs, Done w1', fl') /\
              (forall e, In e evs -> PInv (snd e) lp) /\ PInv w1' lp /\
              kv_core w1' = kv_core w /\ w_dk w1' = w_dk w /\ w_ids w1' = w_ids w /\
